@@ -3,6 +3,7 @@
 From Coq Require Import List ZArith NArith Bool.
 Import ListNotations.
 From Verif Require Import C01.Lisp C01.Py C01.Gen C01.Sim C01.Top.
+From Verif Require C01.FLisp C01.FCorr C01.FRefuted.
 
 (** First-order core (constants, locals with shadowing, if, do, let*, calls of primitives
     with any number of arguments, nested to any depth).  PARTIAL: guarded by the executable
@@ -33,7 +34,37 @@ Example C01_nonvacuous :
   eval (fun _ => None) Top.sample = Some (VVec [VInt 1; VInt 2], [VInt 1; VVec [VInt 1; VInt 2]]).
 Proof. exact Top.sample_ok. Qed.
 
+(** Full fragment (fn*/closures, loop*/recur, try/catch/finally, throw, def, literals):
+    executable model (FLisp/FPy/FGen) tied to the compiler by the correspondence run.  The
+    full statement "model e = spec e for every program" is REFUTED by these witnesses, each
+    with the hazard tag that delimits the corresponding finding: *)
+Theorem C01_loop_capture_refuted :
+  exists e, FCorr.spec e = FLisp.RVal (FLisp.OInt 0) [] /\ FCorr.model e = FLisp.RVal (FLisp.OInt 2) [] /\ FCorr.tag e = 2%N.
+Proof. exact FRefuted.loop_capture_refuted. Qed.
+Theorem C01_let_in_loop_capture_refuted :
+  exists e, FCorr.spec e = FLisp.RVal (FLisp.OInt 0) [] /\ FCorr.model e = FLisp.RVal (FLisp.OInt 2) [] /\ FCorr.tag e = 2%N.
+Proof. exact FRefuted.let_in_loop_capture_refuted. Qed.
+Theorem C01_param_munge_shadow_refuted :
+  exists e, FCorr.spec e = FLisp.RVal (FLisp.OInt 1) [] /\ FCorr.model e = FLisp.RVal (FLisp.OInt 2) [] /\ FCorr.tag e = 4%N.
+Proof. exact FRefuted.param_munge_shadow_refuted. Qed.
+Theorem C01_param_munge_duplicate_refuted :
+  exists e, FCorr.spec e = FLisp.RVal (FLisp.OInt 1) [] /\ FCorr.model e = FLisp.RExc FGen.CLS_SYNTAX [] /\ FCorr.tag e = 4%N.
+Proof. exact FRefuted.param_munge_duplicate_refuted. Qed.
+Theorem C01_catch_var_capture_refuted :
+  exists e, FCorr.spec e = FLisp.RVal (FLisp.OExc 1 (FLisp.OInt 7)) [] /\ FCorr.model e = FLisp.RExc FLisp.CLS_NAME [] /\ FCorr.tag e = 8%N.
+Proof. exact FRefuted.catch_var_capture_refuted. Qed.
+Example C01_full_model_agrees_sample :
+  FCorr.spec FRefuted.w_ok = FLisp.RVal (FLisp.OVec [FLisp.OInt 0; FLisp.OInt 1; FLisp.OInt 2]) [FLisp.OInt 0; FLisp.OInt 1; FLisp.OInt 2; FLisp.OInt 99]
+  /\ FCorr.model FRefuted.w_ok = FCorr.spec FRefuted.w_ok /\ FCorr.tag FRefuted.w_ok = 0%N.
+Proof. exact FRefuted.full_model_agrees_sample. Qed.
+
 Print Assumptions C01_compile_correct_partial.
+Print Assumptions C01_loop_capture_refuted.
+Print Assumptions C01_let_in_loop_capture_refuted.
+Print Assumptions C01_param_munge_shadow_refuted.
+Print Assumptions C01_param_munge_duplicate_refuted.
+Print Assumptions C01_catch_var_capture_refuted.
+Print Assumptions C01_full_model_agrees_sample.
 Print Assumptions C01_context_independent_partial.
 Print Assumptions C01_truthiness.
 Print Assumptions C01_simulation.
